@@ -22,7 +22,7 @@ func zzH_c01_nonce_range() {
 	if vNative() {
 		c := P256Sm2()
 		n := c.Params().N
-		for _, m := range []*big.Int{new(big.Int).Sub(n, one), n, new(big.Int).Sub(n, two)} {
+		for _, m := range []*big.Int{new(big.Int).Sub(n, zzOne), n, new(big.Int).Sub(n, zzTwo)} {
 			for cc := int64(0); cc < 4; cc++ {
 				for e := int64(0); e < 3; e++ {
 					v := new(big.Int).Mul(m, big.NewInt(cc))
@@ -35,7 +35,7 @@ func zzH_c01_nonce_range() {
 					k1, err1 := randFieldElement(c, &zzOneByteReader{bytes.NewReader(blk)})
 					vAssert("nonce-determined-by-the-bytes-read", err1 == nil && k1.Cmp(k) == 0)
 					priv, err := GenerateKey(bytes.NewReader(blk))
-					vAssert("key-in-range", err == nil && priv.D.Sign() > 0 && priv.D.Cmp(new(big.Int).Sub(n, one)) < 0)
+					vAssert("key-in-range", err == nil && priv.D.Sign() > 0 && priv.D.Cmp(new(big.Int).Sub(n, zzOne)) < 0)
 					px, py := c.ScalarBaseMult(priv.D.Bytes())
 					vAssert("public-key-is-d-times-G", px.Cmp(priv.X) == 0 && py.Cmp(priv.Y) == 0)
 				}
@@ -54,7 +54,7 @@ func zzH_c01_nonce_range() {
 		vAssert("nonce-in-range", k.Sign() > 0 && k.Cmp(n) < 0)
 		ref := new(big.Int).SetBytes(r.stream)
 		ref.Mod(ref, big.NewInt(q-1))
-		ref.Add(ref, one)
+		ref.Add(ref, zzOne)
 		vAssert("nonce-determined-by-the-bytes-read", k.Cmp(ref) == 0)
 		vReach("end")
 		return
@@ -62,8 +62,8 @@ func zzH_c01_nonce_range() {
 	// GenerateKey on the real parameters
 	c := P256Sm2()
 	n := c.Params().N
-	bases := []*big.Int{new(big.Int), new(big.Int).Sub(n, two), new(big.Int).Sub(n, one), n,
-		new(big.Int).Lsh(new(big.Int).Sub(n, two), 1), new(big.Int).Lsh(n, 1)}
+	bases := []*big.Int{new(big.Int), new(big.Int).Sub(n, zzTwo), new(big.Int).Sub(n, zzOne), n,
+		new(big.Int).Lsh(new(big.Int).Sub(n, zzTwo), 1), new(big.Int).Lsh(n, 1)}
 	v := new(big.Int).Set(bases[vChoice("base", len(bases))])
 	v.Add(v, new(big.Int).SetUint64(uint64(vU16("offset"))))
 	blk := make([]byte, 40)
@@ -73,9 +73,9 @@ func zzH_c01_nonce_range() {
 	if err != nil || priv == nil {
 		return
 	}
-	vAssert("key-in-range", priv.D.Sign() > 0 && priv.D.Cmp(new(big.Int).Sub(n, one)) < 0)
-	ref := new(big.Int).Mod(v, new(big.Int).Sub(n, two))
-	ref.Add(ref, one)
+	vAssert("key-in-range", priv.D.Sign() > 0 && priv.D.Cmp(new(big.Int).Sub(n, zzOne)) < 0)
+	ref := new(big.Int).Mod(v, new(big.Int).Sub(n, zzTwo))
+	ref.Add(ref, zzOne)
 	vAssert("key-determined-by-the-bytes-read", priv.D.Cmp(ref) == 0)
 	vAssert("public-key-is-d-times-G", zzSBMScalar != nil && new(big.Int).SetBytes(zzSBMScalar).Cmp(priv.D) == 0 &&
 		priv.X == zzSBMx && priv.Y == zzSBMy)
@@ -118,3 +118,6 @@ func (o *zzOneByteReader) Read(p []byte) (int, error) {
 	}
 	return o.r.Read(p[:1])
 }
+
+// the harness's own small constants (the package's unexported ones may change)
+var zzOne, zzTwo = big.NewInt(1), big.NewInt(2)
